@@ -19,7 +19,7 @@ def ns_tie(kinds, quick=4000, thorough=200000, extra=None, name='TIE-C ns'):
 
 
 PROPS['C22'] = dict(
-    target='Props/C22', theorems=['C22_send', 'C22_balances', 'C22_send_statement', 'C22_send_all_statement'],
+    target='Props/C22', theorems=['C22_send', 'C22_balances', 'C22_send_statement', 'C22_send_all_statement', 'C22_machine_refines_sem_code', 'C22_statement_code'],
     ties=[ns_tie(['C22']), ns_tie(['C22'], quick=2500, thorough=100000, extra=['-profile', 'single'], name='TIE-C ns single-send')],
     rule=NS_RULE, trusted=NS_TRUST, level_note=NS_NOTE,
     explanation='C22_send (all programs, variables, stores; structural induction over sources and destinations, no depth bound): per send statement the postings are non-negative, all in the asset the '
@@ -61,7 +61,7 @@ PROPS['C26'] = dict(
                '(no model of the third-party interpreter). Known disagreements on `kept` are reported as known findings.')
 
 PROPS['C27'] = dict(
-    target='Props/C27', theorems=['C27_no_panic', 'C27_statements_no_panic', 'C27_no_partial'],
+    target='Props/C27', theorems=['C27_no_panic', 'C27_statements_no_panic', 'C27_no_partial', 'C27_vm_no_panic_code', 'C27_vm_fuel'],
     ties=[ns_tie(['C27'], quick=3000, name='TIE-C ns'),
           ns_tie(['C27'], quick=1500, thorough=50000, extra=['-profile', 'nilbal'], name='TIE-C ns several balance() variables'),
           dict(name='TIE-C ns adapters (no partial result)', vh='ns', model='ns', n=dict(quick=1500, thorough=50000), args=dict(all=['-c26', '1']), kinds=['C27']),
@@ -98,3 +98,15 @@ if 'C25' in PROPS:
     PROPS['C25']['explanation'] = PROPS['C25']['explanation'] + (' Machine side (C25_machine_script, Machine/TxScript.v): Sem.run on the script TxToScriptData generates yields exactly the submitted postings iff '
         'Core.feasible succeeds and insufficient funds otherwise, for any injective variable naming; tie nstx: 1-8 postings over 5 accounts incl. world x 4 assets (USD_X is not lexable as a literal: variables only), zero and >2^64 amounts, '
         'negative balances, 20% force, through the REAL TxToScriptData + compiler + VM vs the extracted model; monitor: independent in-order walk.')
+
+
+# ---- the bytecode layer: model compiler = real compiler byte for byte; model VM on the real bytecode = real machine
+NSBC_TIE = dict(name='TIE-C nsbc (bytecode: compiler bytes/resources/needed balances, VM on real bytecode)', vh='nsbc', model='nsbc',
+                n=dict(quick=3000, thorough=150000), kinds=['C27'])
+NSBC_TEXT = (' Bytecode layer: Machine/Vm.v (the instruction set of vm/program with Panic where Go panics), Machine/Compile.v (gen + assign). Tie nsbc: for every generated program the REAL compiler.Compile output '
+             '(instruction bytes, resource table, needed balances) equals the model compiler\'s, and the model VM run on the REAL bytecode equals the real machine\'s result. '
+             'Theorems (CompileCorrect.v, all statement forms): the emitted instruction stream, operands read by denotation in the run\'s environment, computes exactly Sem (C22_machine_refines_sem_code) and never panics, '
+             'stack empty at the end (C27_vm_no_panic_code). Gap: resolution of the concrete resource table at the assigned addresses is covered by the tie, not yet by a theorem.')
+for _p in ('C22', 'C27'):
+    PROPS[_p]['ties'] = PROPS[_p]['ties'] + [NSBC_TIE]
+    PROPS[_p]['explanation'] = PROPS[_p]['explanation'] + NSBC_TEXT
